@@ -32,7 +32,7 @@ func runC15(c *Ctx) {
 	runC15R6(c, "R6-client-first-element")
 	r.Rule("R7-header-parser-only-in-reverse-proxy", "the real-client-IP header parser is installed only under reverse-proxy mode (shared with C16.R4)", 1)
 	runParserUnderFlag(c, "R7-header-parser-only-in-reverse-proxy")
-	r.Rule("R9-rules-reach-matcher-verbatim", "the operator's skip-auth routes, skip-auth regexes and trusted-IP entries are never rewritten between option loading and the code that compiles them (no element store, reordering or reassignment outside pkg/apis/options)", 3)
+	r.Rule("R9-rules-reach-matcher-verbatim", "the operator's skip-auth routes, skip-auth regexes and trusted-IP entries are never rewritten between option loading and the code that compiles them (no element store, reordering or reassignment outside pkg/apis/options); the loader installs no decode hook of its own", 4)
 	r.Rule("R8-remote-address", "without a header parser the client address is the host part of RemoteAddr that net.ParseIP accepted", 2)
 	runRemoteIPRule(c, "R8-remote-address")
 
@@ -1059,6 +1059,56 @@ func runC15R2Combined(c *Ctx, rule string, isAllowedRoute *ssa.Function, methodF
 // fields outside pkg/apis/options and requires each use to be read-only (no element store, no sort/copy into it, no
 // append whose result is stored back), and every store to the fields to be inside pkg/apis/options.
 func runC15R9(c *Ctx, rule string) {
+	// the loader hands the operator's strings to the options struct as the configuration library decodes them: its one
+	// decoder option selects the tag name and nothing else (no decode hook of the project's own that splits, trims or
+	// drops entries — a comma inside a regular expression must survive)
+	if load, tagOpt := c.Fn(rule, "pkg/apis/options.Load"), c.Fn(rule, "pkg/apis/options.decodeFromCfgTag"); load != nil && tagOpt != nil {
+		key := "loader-decodes-verbatim|" + fnKey(load)
+		n, bad := 0, false
+		for _, b := range load.Blocks {
+			for _, in := range b.Instrs {
+				call, ok := in.(*ssa.Call)
+				if !ok || call.Call.StaticCallee() == nil || !strings.HasPrefix(call.Call.StaticCallee().Name(), "Unmarshal") || call.Call.StaticCallee().Pkg == nil || call.Call.StaticCallee().Pkg.Pkg.Path() != "github.com/spf13/viper" {
+					continue
+				}
+				n++
+				args := call.Call.Args
+				opts := args[len(args)-1]
+				for i := int64(0); ; i++ {
+					e := varargElem(opts, i)
+					if e == nil {
+						break
+					}
+					e = unwrap0(e)
+					if mi, ok := e.(*ssa.MakeInterface); ok {
+						e = unwrap0(mi.X)
+					}
+					if fn, ok := e.(*ssa.Function); !ok || fn != tagOpt {
+						bad = true
+						c.bad(rule, key, in, "the option loader gives the configuration decoder an option other than the tag-name selector (a decode hook of its own): list entries can be split, trimmed or dropped between the operator's file and the rules compiled from them", nil, 0)
+					}
+				}
+			}
+		}
+		for _, b := range tagOpt.Blocks {
+			for _, in := range b.Instrs {
+				if st, ok := in.(*ssa.Store); ok {
+					if fa, ok := st.Addr.(*ssa.FieldAddr); ok {
+						if f := walk.FieldOf(fa.X.Type(), fa.Field); f != nil && f.Name() != "TagName" {
+							bad = true
+							c.bad(rule, key, in, "the decoder option sets "+f.Name()+" besides the tag name: decoding of the operator's values is altered", nil, 0)
+						}
+					}
+				}
+			}
+		}
+		switch {
+		case n == 0:
+			c.R.Unknown(rule, key, c.P.Pos(load.Pos()), "no viper Unmarshal call found in the option loader")
+		case !bad:
+			c.R.OK(rule, key, c.P.Pos(load.Pos()), "UnmarshalExact(into, decodeFromCfgTag): tag name only")
+		}
+	}
 	for _, name := range []string{"SkipAuthRoutes", "SkipAuthRegex", "TrustedIPs"} {
 		f := c.Field(rule, "pkg/apis/options.Options."+name)
 		if f == nil {
